@@ -25,6 +25,12 @@ Correspondence:
               loopback socket with plaintext, old-version clients (with and without a client certificate) and a
               modern control (harness/sim/tls_startup.py).  Oracle only (no model): whatever start-up does with a
               configuration - refuse it or serve it - no plaintext reaches a handler and nothing below TLS 1.2 completes.
+* `settings`  the configuration FILE: every (table, key) the TOML loader of the working tree reads (enumerated from the syntax
+              tree of server/config.py) x values of every TOML type (quoted / unquoted numbers, strings, booleans, arrays, inline
+              tables, dates; protocol versions and cipher strings in the spellings operators use), alone, pairwise for the
+              keys the loader validates together, and in random combinations per table; configurations the loader takes are
+              started through `nauyaca serve --config` and through ServerConfig.from_toml + start_server and probed like
+              `startup`, then once more with the running listener's security level lowered to 0.  Oracle only.
 * `cli`       every leaf command of the command-line interface, enumerated from the click tree of the working
               tree (a command the harness has no recipe for gets arguments synthesised from its declared
               parameters and runs in a process of its own), against the scripted peer capped at TLS 1.0/1.1, with
@@ -59,7 +65,8 @@ LEVEL_NOTE = ("version negotiation and record parsing are OpenSSL's and are not 
 TECHNIQUE = ("Lean 4 theorems over a table generated from the real context objects (decide + negotiate_ge_min) and an invariant proof over the "
              "pump model (Pre/Dead states, induction over arbitrary event lists); differential testing of the real contexts / the real "
              "TLSServerProtocol against the model with permissive memory-BIO peers and control contexts; loopback probes of both backends; "
-             "exhaustive small-scope enumeration of start-up configurations (entry point x certificate kind x require_client_cert x certificate_auth shape) "
+             "exhaustive small-scope enumeration of start-up configurations (entry point x certificate kind x require_client_cert x certificate_auth shape), "
+             "of the configuration-file settings found in the source x TOML value types (singles, pairwise, random combinations) "
              "and of the CLI's commands (enumerated from the source) against scripted loopback peers, judged by the property's oracle")
 ASSUMPTIONS = [
     "OpenSSL negotiates the highest protocol version enabled on both sides, or none (Misc.negotiate); not verified, exercised on every run",
@@ -69,6 +76,7 @@ ASSUMPTIONS = [
     "stdlib backend: plaintext handling and the 60 s handshake timeout are asyncio.sslproto's; exercised over loopback sockets only",
     "start-up configurations (family startup) and command-line commands (family cli) are exercised behaviourally over loopback sockets and judged by the oracle alone; the Lean table covers the context-construction paths, not the glue that decides which listener a configuration gets",
     "certificates below the security level are RSA-1024 keys and SHA-1 signatures (made with pyOpenSSL's legacy X509 API, since `cryptography` refuses to sign with SHA-1); a server that refuses to start with them satisfies the property",
+    "family settings: which values a setting takes is learnt by calling the working tree's own loader (ServerConfig.from_toml); settings the harness needs for itself ([server] host/port/document_root/certfile/keyfile/require_client_cert, [rate_limit] enabled, [certificate_auth] paths) are not varied; the `-level0` verdicts lower the security level of the RUNNING listener's context (set_ciphers / set_cipher_list with ALL:@SECLEVEL=0), which cannot enable a protocol version the context's version range excludes",
     "`serve` is the one command of the CLI that is not run as a client (it is the server: family startup); every other leaf command found in the source is run against the old-version peer",
 ]
 
@@ -756,7 +764,7 @@ def _auth_class(auth) -> str:
     return "cert-auth/exempting-rules-only"
 
 
-_STARTUP_CTRL: dict[str, str] = {}
+_STARTUP_CTRL: dict = {}
 
 
 class Startup(Family):
@@ -842,13 +850,17 @@ class Startup(Family):
             _STARTUP_CTRL[case["cert"]] = tls_startup.control_negotiates(case["cert"], 1, 1)
         obs = {"started": False, "error": None, "listener": "-", "probes": [], "control_tls10": _STARTUP_CTRL[case["cert"]]}
         try:
-            with tls_startup.Started(case["entry"], case["cert"], case["rcc"], case["auth"], root) as srv:
+            with tls_startup.Started(case["entry"], case["cert"], case["rcc"], case["auth"], root, extra=case.get("extra")) as srv:
                 obs["started"], obs["error"], obs["listener"] = srv.started, srv.error, srv.backend
                 if not srv.started:
                     return obs
                 cc_files = None
                 for p in case["probes"]:
                     before = calls["n"]
+                    if p["kind"] == "lower":
+                        # from here on OpenSSL's security level (system configuration) is out of the picture on the running listener
+                        obs["probes"].append({"lowered": srv.lower_security_level(), "h": 0})
+                        continue
                     if p["kind"] == "plain":
                         r = tls_live.plaintext_probe(srv.port, [bytes.fromhex(c) for c in p["chunks"]], wait=0.3)
                         got = r["got"]
@@ -858,7 +870,9 @@ class Startup(Family):
                         certkey = None
                         if p["cc"]:
                             if cc_files is None:
-                                cc, ck = tls_peer.make_cert("client")
+                                if "cc" not in _STARTUP_CTRL:      # one client certificate per process (key generation is slow)
+                                    _STARTUP_CTRL["cc"] = tls_peer.make_cert("client")
+                                cc, ck = _STARTUP_CTRL["cc"]
                                 (Path(root) / ".cc.pem").write_bytes(cc)
                                 (Path(root) / ".ck.pem").write_bytes(ck)
                                 cc_files = (str(Path(root) / ".cc.pem"), str(Path(root) / ".ck.pem"))
@@ -879,16 +893,25 @@ class Startup(Family):
 
     @staticmethod
     def _describe(case) -> str:
-        how = "start_server(config, certificate_auth_config=...)" if case["entry"] == "api" else "`nauyaca serve --config <toml>`"
+        how = {"api": "start_server(config, certificate_auth_config=...)", "cli": "`nauyaca serve --config <toml>`",
+               "toml": "start_server(ServerConfig.from_toml(<toml>), ...)"}[case["entry"]]
         cert = "no certificate configured (auto-generated)" if case["cert"] == "auto" else f"supplied {case['cert']} certificate"
         auth = "no certificate_auth" if case["auth"] is None else "certificate_auth rules " + json.dumps(case["auth"])
-        return f"{how}, {cert}, require_client_cert={case['rcc']}, {auth}"
+        extra = "".join(f", [{t}] {k} = {v}" for t, k, v in case.get("extra") or [])
+        return f"{how}, {cert}, require_client_cert={case['rcc']}, {auth}" + (f"; further lines of the configuration file: {extra[2:]}" if extra else "")
 
     def oracle(self, case, obs):
         if not obs["started"]:
             return None   # refusing to serve is no service
         tag = f"{case['entry']}-{'auto' if case['cert'] == 'auto' else 'weak' if case['cert'] in tls_startup.WEAK_KINDS else 'supplied'}"
+        lowered = ""
         for p, o in zip(case["probes"], obs["probes"]):
+            if p["kind"] == "lower":
+                if o.get("lowered"):
+                    tag += "-level0"
+                    lowered = (" after the OpenSSL security level of the running listener's context was lowered to 0 (system configuration, not "
+                               "nauyaca's: the protocol-version range nauyaca set is then the only barrier)")
+                continue
             if p["kind"] == "plain":
                 sent = b"".join(bytes.fromhex(c) for c in p["chunks"])[:40]
                 if o["h"]:
@@ -903,7 +926,7 @@ class Startup(Family):
             else:
                 if o["version"] in OLD_TLS:
                     return (f"startup-old-tls-{tag}",
-                            f"the server started by [{self._describe(case)}] completed a {o['version']} handshake with a permissive client offering "
+                            f"the server started by [{self._describe(case)}] completed a {o['version']} handshake{lowered} with a permissive client offering "
                             f"{VERS[p['lo']]}..{VERS[p['hi']]}{' and presenting a client certificate' if p['cc'] else ''} (response read afterwards: {o['resp']!r}; a permissive control server with the same certificate negotiates {obs.get('control_tls10')} with a TLS 1.0 client)")
                 if o["resp"] and o["version"] not in ("TLSv1.2", "TLSv1.3"):
                     return (f"startup-response-without-modern-tls-{tag}", f"a response {o['resp']!r} was read on a connection whose TLS version is {o['version']}")
@@ -923,6 +946,170 @@ class Startup(Family):
         modern = sorted({str(o["version"] or "refused") for p, o in zip(case["probes"], obs["probes"]) if p["kind"] == "tls" and p["hi"] > 2})
         return f"{head} -> {obs['listener']}; plaintext {'/'.join(plain)}; old clients {'/'.join(old)}; modern {'/'.join(modern)}"
 
+
+# ------------------------------------------------------------------------------------------------
+# family 5b: every setting a configuration file can carry, in every TOML type
+# ------------------------------------------------------------------------------------------------
+# settings the harness writes itself (Started.toml_text); every OTHER (table, key) the loader of the working tree reads is varied
+KNOWN_SETTINGS = {("server", "host"), ("server", "port"), ("server", "document_root"), ("server", "certfile"), ("server", "keyfile"),
+                  ("server", "require_client_cert"), ("rate_limit", "enabled"), ("certificate_auth", "paths")}
+# values as TOML text, of every TOML type, from the vocabulary of this property: protocol versions in the spellings operators
+# use (quoted and unquoted, dotted, OpenSSL names, wire numbers), cipher strings (among them ones that set the security
+# level), and the generic rest (booleans, empty, arrays, inline tables, dates, special floats)
+TOML_VALUES = [
+    '"1.0"', '"1.1"', '"1.2"', '"1.3"', '1.0', '1.1', '1.2', '1.3', '"1"', '1', '2', '3', '0', '10', '11', '12', '13', '0x0301', '0x0303', '769', '771', '772', '-1', '0.0', '1.20', '1.30',
+    '"TLSv1"', '"TLSv1.1"', '"TLSv1.2"', '"TLSv1.3"', '"TLSv1_2"', '"tls1.2"', '"SSLv3"', '"TLS 1.0"', '"1.2 "', "'1.2'", "'1.3'",
+    '"DEFAULT:@SECLEVEL=0"', '"ALL:@SECLEVEL=0"', '"DEFAULT"', '"ALL"', '"HIGH:!aNULL"', '"ECDHE+AESGCM"', '"AES128-SHA:@SECLEVEL=0"', '"ALL:COMPLEMENTOFALL:@SECLEVEL=0"', '"@SECLEVEL=0"',
+    '"DEFAULT:@SECLEVEL=1"', '"no-such-cipher"', 'true', 'false', '""', '[]', '["1.0"]', '[1.2]', '["TLSv1", "TLSv1.1"]', '["ALL:@SECLEVEL=0"]', '{ min = "1.0" }', '1979-05-27', 'inf', 'nan',
+]
+
+
+def retyped(default) -> list[str]:
+    """the default of a setting written in the OTHER TOML types an operator may use for it (quoted <-> unquoted)"""
+    out = []
+    if isinstance(default, bool):
+        out += [json.dumps(default), json.dumps(json.dumps(default)), str(int(default))]
+    elif isinstance(default, (int, float)):
+        out += [repr(default), json.dumps(repr(default)), repr(float(default)), repr(int(default))]
+    elif isinstance(default, str):
+        out.append(json.dumps(default))
+        try:
+            float(default)
+            out += [default, "[" + default + "]"]          # "1.2" -> 1.2
+        except ValueError:
+            out.append("[" + json.dumps(default) + "]")
+    return list(dict.fromkeys(out))
+
+
+_SETTINGS_PLAN: dict = {}
+
+
+class Settings(Startup):
+    """The configuration FILE is the operator's interface: every (table, key) the loader of the working tree reads - enumerated
+    from the syntax tree of nauyaca/server/config.py, minus the few the harness needs for itself - is given values of every
+    TOML type (quoted and unquoted numbers, strings, booleans, arrays, inline tables, dates), alone and in combination with the
+    other settings of its table.  Which values the loader takes is found out by calling the loader; configurations it takes are
+    started for real - through `nauyaca serve --config` and through ServerConfig.from_toml + start_server, with auto-generated
+    and supplied certificates, with and without client certificates - and the listener is probed: plaintext, permissive old-version
+    clients, a modern control; then the same old-version clients again after the listener's OpenSSL security level was lowered to 0,
+    so that a version floor that is only missing - and masked by the system's default level - shows.  A configuration that is
+    refused satisfies the property; one that is served must not be served below TLS 1.2 or without TLS, whatever it says."""
+
+    name = "settings"
+    quick_n = 320
+    thorough_n = 6400
+
+    def _plan(self):
+        """[(table, key, [accepted value texts]), ...] with the picky keys first, and the number of values tried per key"""
+        import os
+
+        if "plan" in _SETTINGS_PLAN:
+            return _SETTINGS_PLAN["plan"]
+        try:
+            schema = [e for e in tls_startup.config_schema() if (e["table"], e["key"]) not in KNOWN_SETTINGS]
+        except Exception:  # noqa: BLE001
+            schema = []
+        root = core.mkdtemp("nv-c20settings-")
+        cwd = os.getcwd()
+        os.chdir(root)      # settings that name files or directories are resolved (and created) here
+        plan = []
+        try:
+            for e in schema:
+                values = list(dict.fromkeys(retyped(e["default"]) + TOML_VALUES))
+                ok = [v for v in values if tls_startup.config_accepts([[e["table"], e["key"], v]], root)]
+                plan.append({"table": e["table"], "key": e["key"], "ok": ok, "tried": len(values)})
+        finally:
+            os.chdir(cwd)
+        # keys the loader is picky about (it interprets them when the file is read) first, the pickiest first
+        plan.sort(key=lambda p: (0 if 0 < len(p["ok"]) < p["tried"] else 1, len(p["ok"])))
+        _SETTINGS_PLAN["plan"] = plan
+        return plan
+
+    def _shell(self, rng, i):
+        return {"entry": ("cli", "toml")[i % 2], "cert": ("auto", "rsa2048", "auto", "ec256")[(i // 2) % 4], "rcc": (i // 2) % 2 == 1,
+                "shape": "settings", "auth": None if rng.random() < 0.8 else rng.choice([[], AUTH_SHAPES["requiring-rule"], AUTH_SHAPES["exempting-rule-only"]])}
+
+    def _probes(self, rng: random.Random, many: bool) -> list[dict]:
+        olds = [(1, 1), (2, 2), (1, 2), (0, 2)]
+        ps = [{"kind": "plain", "chunks": [PLAIN_LINES[0].hex()]}, {"kind": "tls", "lo": 1, "hi": 1, "cc": rng.random() < 0.3}]
+        ps.append({"kind": "tls", "lo": 2, "hi": 2, "cc": rng.random() < 0.5} if not many else {"kind": "tls", "lo": 1, "hi": 2, "cc": rng.random() < 0.5})
+        ps.append({"kind": "tls", "lo": rng.choice([1, 3]), "hi": rng.choice([3, 4, 4]), "cc": rng.random() < 0.5})
+        ps.append({"kind": "lower"})
+        for lo, hi in ([(1, 1), rng.choice(olds[1:])] if not many else olds):
+            ps.append({"kind": "tls", "lo": lo, "hi": hi, "cc": rng.random() < 0.4})
+        return ps
+
+    def gen(self, rng: random.Random, n: int):
+        plan = self._plan()
+        many = n >= 100
+        singles = [[p["table"], p["key"], v] for p in plan for v in p["ok"]]
+        count = 0
+        # pairwise: every two values the loader takes on their own, for every two picky keys of one table (settings the loader
+        # interprets together: a range, a policy) - each fine alone need not be fine together
+        picky = [p for p in plan if 0 < len(p["ok"]) < p["tried"]]
+        pairs = [[[a["table"], a["key"], va], [b["table"], b["key"], vb]] for i, a in enumerate(picky) for b in picky[i + 1:] if a["table"] == b["table"]
+                 for va in a["ok"] for vb in b["ok"]]
+        random.Random(20).shuffle(pairs)
+        for i, pr in enumerate(self.share(pairs)):
+            if count >= n:      # (a tree whose loader is picky about no two keys of one table has no pairs: the budget then goes to the stages below)
+                break
+            # (probed as built only: what a configuration file alone achieves; the stages below repeat the old-version probes at level 0)
+            yield dict(self._shell(rng, i + self.shard[0]), extra=pr, probes=[q for q in self._probes(rng, True) if q["kind"] != "lower"])
+            count += 1
+        n = max(n, count + 8)
+        top = count + max(4, (n - count) // 2)
+        for i, s in enumerate(self.share(singles)):
+            if count >= top:
+                break       # (the picky keys come first; the others are also reached by the combinations below)
+            yield dict(self._shell(rng, i + self.shard[0]), extra=[s], probes=self._probes(rng, many))
+            count += 1
+        # a refused value per key, for the record (refusing is no service)
+        for p in self.share(plan):
+            bad = [v for v in TOML_VALUES if v not in p["ok"]]
+            if bad:
+                yield dict(self._shell(rng, count), extra=[[p["table"], p["key"], rng.choice(bad)]], probes=self._probes(rng, False))
+                count += 1
+        # combinations within a table (weight: picky keys), every key absent or set to a value the loader takes on its own
+        tables: dict[str, list] = {}
+        for p in plan:
+            if p["ok"]:
+                tables.setdefault(p["table"], []).append(p)
+        weighted = [t for t, ps in tables.items() for _ in range(1 + 3 * sum(1 for p in ps if len(p["ok"]) < p["tried"]))]
+        while weighted and count < n:
+            t = rng.choice(weighted)
+            extra = [[t, p["key"], rng.choice(p["ok"])] for p in tables[t] if rng.random() < 0.7]
+            if rng.random() < 0.15:     # ... and a setting of another table
+                p = rng.choice(plan)
+                if p["ok"] and p["table"] != t:
+                    extra.append([p["table"], p["key"], rng.choice(p["ok"])])
+            if not extra:
+                continue
+            yield dict(self._shell(rng, rng.randrange(16)), extra=extra, probes=self._probes(rng, many))
+            count += 1
+
+    def impl(self, case):
+        import os
+
+        cwd = os.getcwd()
+        scratch = core.mkdtemp("nv-c20cwd-") if "cwd" not in _SETTINGS_PLAN else _SETTINGS_PLAN["cwd"]
+        _SETTINGS_PLAN["cwd"] = scratch
+        os.chdir(scratch)
+        try:
+            return super().impl(case)
+        finally:
+            os.chdir(cwd)
+
+    def key(self, case, obs):
+        ex = case.get("extra") or []
+        def typ(v):
+            return ("quoted" if v[:1] in "\"'" else "bool" if v in ("true", "false") else "array" if v[:1] == "[" else "table" if v[:1] == "{" else "unquoted")
+        what = "+".join(sorted(f"{t}.{k}" for t, k, _v in ex)) if len(ex) == 1 else f"[{ex[0][0]}] x{len(ex)}"
+        kinds = "/".join(sorted({typ(v) for _t, _k, v in ex}))
+        if not obs["started"]:
+            return f"{what} ({kinds}) -> refuses to start"
+        old = sorted({str(o["version"] or "refused") for p, o in zip(case["probes"], obs["probes"]) if p["kind"] == "tls" and p["hi"] <= 2})
+        modern = sorted({str(o["version"] or "refused") for p, o in zip(case["probes"], obs["probes"]) if p["kind"] == "tls" and p["hi"] > 2})
+        return f"{what} ({kinds}) -> {obs['listener']}; old clients {'/'.join(old)}; modern {'/'.join(modern)}"
 
 # ------------------------------------------------------------------------------------------------
 # family 6: every command of the command-line interface against servers that offer less than TLS 1.2
@@ -1148,7 +1335,7 @@ class CliCommands(Family):
         return f"{what}: {hist}" if len(case["steps"]) == 1 or all(s["hi"] <= 2 for s in case["steps"]) else f"{what}: history with old and modern steps"
 
 
-FAMILIES = [Versions(), PlaintextModel(), Live(), ClientHistories(), Startup(), CliCommands()]
+FAMILIES = [Versions(), PlaintextModel(), Live(), ClientHistories(), Startup(), Settings(), CliCommands()]
 
 if __name__ == "__main__":
     if "--write-tls" in sys.argv:
